@@ -146,7 +146,8 @@ PROPS["C13"] = {
     "theorems": [
         "GstProofs.C13.p_prime", "GstProofs.C13.det", "GstProofs.C13.next_range", "GstProofs.C13.unif_range",
         "GstProofs.C13.next_injective", "GstProofs.C13.streams_differ", "GstProofs.C13.exact_conditioning",
-        "GstProofs.C13.clamp_bounds",
+        "GstProofs.C13.clamp_bounds", "GstProofs.C13.simRank_injective", "GstProofs.C13.simRank_lt",
+        "GstProofs.C13.gibbs_old_address_differs",
     ],
     "harnesses": ["vh_c13"],
     "level": "proof",
